@@ -86,7 +86,7 @@ func (g *c07Gen) endless(depth int, allowTry bool) string {
 	if depth >= 4 {
 		n = 0
 	}
-	w := []int{10, 1, 1, 1, 1, 1, 2, 1, 1, 1, 1}
+	w := []int{10, 1, 1, 1, 1, 1, 2, 1, 1, 1, 1, 1}
 	if !allowTry || depth >= 4 {
 		w[6] = 0
 	}
@@ -123,6 +123,13 @@ func (g *c07Gen) endless(depth int, allowTry bool) string {
 	case 9:
 		g.kinds = append(g.kinds, "if")
 		return "(if true " + g.endless(depth+1, allowTry) + " 0)"
+	case 11:
+		// the value expression of a definition never finishes
+		g.kinds = append(g.kinds, "definition-value")
+		if g.tp.Chance(LaneWork, 1, 2) {
+			return "(defmacro m-slow (do " + g.endless(depth+1, false) + " (fn [] 1)))"
+		}
+		return "(def v-slow (do " + g.endless(depth+1, false) + " 1))"
 	case 10:
 		// evaluation handed to the eval builtin: it must run under the caller's context
 		g.kinds = append(g.kinds, "eval")
